@@ -5,7 +5,7 @@ from ..runner import Check
 from ._history import run_history
 
 PROPERTY = "C08"
-RULE = 'Same generator as C07. Oracle at each commit of an interaction or cell-veto handler: every unit of the in-state snapshot taken when its candidate was computed has the same velocity in the global state just before the commit and lies on the same straight line (same position if resting). The same comparison is made for every candidate still pending when the mediator asks the scheduler for the next event (signatures pending-stale-*), and the returned entry must carry the handler's current candidate time. Non-trivial: history with >=1 committed interaction event whose candidate was computed >=2 commits earlier; distinct by (config, edits, seed, budget).'
+RULE = 'Same generator as C07. Oracle at each commit of an interaction or cell-veto handler: every unit of the in-state snapshot taken when its candidate was computed has the same velocity in the global state just before the commit and lies on the same straight line (same position if resting). The same comparison is made for every candidate still pending when the mediator asks the scheduler for the next event (signatures pending-stale-*), and the returned entry must carry the current candidate time of its handler. Non-trivial: history with >=1 committed interaction event whose candidate was computed >=2 commits earlier; distinct by (config, edits, seed, budget).'
 ASSUMPTIONS = ["configurations are the runnable shipped .ini files verbatim, or shipped files with parameter edits "
                "only (particle number with number_event_handlers scaled, box, beta, chain/sampling times, grids, "
                "occupant caps, scheduler, speed, initial direction); wiring is never generated",
